@@ -531,6 +531,35 @@ pub fn run(ctx: &Ctx) -> i32 {
         }
         col.layer("e3-number-boundary", nb, true, json!({"numbers": nums.iter().map(|x| x.0).collect::<Vec<_>>(), "forms": forms}));
     }
+    {
+        let atoms = ["9223372036854775807", "-9223372036854775807", "(-9223372036854775807 - 1)", "-1", "0", "1", "2", "1.5", "-0.0"];
+        let ops = ["+", "-", "*", "/", "%"];
+        let mut nl = 0u64;
+        let mut texts: Vec<String> = Vec::new();
+        for a in atoms {
+            texts.push(format!("SELECT -{} FROM t", a));
+            texts.push(format!("SELECT -(-{}) FROM t", a));
+            for bq in atoms {
+                for o in ops {
+                    texts.push(format!("SELECT {} {} {} FROM t", a, o, bq));
+                    texts.push(format!("SELECT x FROM t WHERE x = {} {} {}", a, o, bq));
+                    for c in ["-1", "0", "2"] {
+                        texts.push(format!("SELECT ({} {} {}) / {} FROM t", a, o, bq, c));
+                        texts.push(format!("SELECT {} * ({} {} {}) FROM t LIMIT 1", c, a, o, bq));
+                    }
+                }
+            }
+        }
+        for t in &texts {
+            nl += 1;
+            col.eval(1);
+            col.nontrivial(h64(&("literal-arithmetic", t)));
+            if let Err(p) = observe(t) {
+                col.fail(fail(panic_signature(&p), format!("parsing {:?} panicked: {}", t, p.msg), json!({"layer": "literal-arithmetic", "text": t}), json!("statement or error"), json!(p.msg), nl));
+            }
+        }
+        col.layer("e4-arithmetic on literals at the ends of the INT range", nl, true, json!({"atoms": atoms, "operators": ops}));
+    }
     col.sample(json!({"layer": "named", "text": "CREATE TABLE x({ } => a INT);"}));
     // (f) nesting up to the documented bound, in child processes with a 2 MiB stack
     let mut n_f = 0;
